@@ -25,8 +25,30 @@ WHICH = {"eventmonitor_init": ("verify_eventmonitor_init", "amaranth_soc.csr.eve
                         "wishbone.sram.WishboneSRAM.__init__::memory-is-the-only-resource-named-mem-of-the-full-size"])}
 
 
+WHICH.update({
+    "mux_check_map": ("verify_mux_check_memory_map", "amaranth_soc.csr.bus.Multiplexer._check_memory_map",
+                      ["csr.bus.Multiplexer._check_memory_map::only-a-bad-register-is-refused",
+                       "csr.bus.Multiplexer._check_memory_map::a-map-with-windows-is-never-accepted"]),
+    "mux_init": ("verify_mux_init", "amaranth_soc.csr.bus.Multiplexer.__init__",
+                 ["csr.bus.Multiplexer.__init__::accepted-only-after-the-map-was-checked",
+                  "csr.bus.Multiplexer.__init__::signature-takes-its-geometry-from-the-map",
+                  "csr.bus.Multiplexer.__init__::bus-carries-the-very-map-given"]),
+    "reg_bridge_init": ("verify_reg_bridge_init", "amaranth_soc.csr.reg.Bridge.__init__",
+                        ["csr.reg.Bridge.__init__::one-multiplexer-over-that-very-map",
+                         "csr.reg.Bridge.__init__::bus-carries-the-very-map-given"]),
+    "reg_bridge_init_freezes": ("verify_reg_bridge_init_freezes", "amaranth_soc.csr.reg.Bridge.__init__",
+                                ["csr.reg.Bridge.__init__::an-accepted-map-has-been-frozen"])})
+
+
+class _Both:
+    """constructor verifiers live in contracts/ctor.py and contracts/regbank_ctor.py"""
+    def __getattr__(self, name):
+        from contracts import ctor, regbank_ctor
+        return getattr(ctor, name) if hasattr(ctor, name) else getattr(regbank_ctor, name)
+
+
 def add_to(run, names):
-    from contracts import ctor as c
+    c = _Both()
     obs = []
     for n in names:
         fname, qual, reqs = WHICH[n]
